@@ -80,7 +80,7 @@ fn the_primitive_fn<S: TheCompatible>(
                     if input.state().is_current_font_command(*tag) {
                         font_to_tokens(the_token, input, input.vm().current_font());
                     } else {
-                        todo!("should return an error")
+                        invalid_argument(the_token, input, token)?;
                     }
                 }
                 None
@@ -90,12 +90,26 @@ fn the_primitive_fn<S: TheCompatible>(
                     | command::Command::Execution(..)
                     | command::Command::CharacterTokenAlias(..),
                 ) => {
-                    todo!("should return an error")
+                    invalid_argument(the_token, input, token)?;
                 }
             }
         }
-        _ => todo!("should return an error"),
+        _ => invalid_argument(the_token, input, token)?,
     };
+    Ok(())
+}
+
+/// TeX.2021.428: "You can't use X after \the"; the recovery is to output the number 0.
+fn invalid_argument<S: TheCompatible>(
+    the_token: token::Token,
+    input: &mut vm::ExpansionInput<S>,
+    token: token::Token,
+) -> txl::Result<()> {
+    input.error(error::SimpleTokenError::new(
+        token,
+        r"this token cannot be used after \the",
+    ))?;
+    write(input.expansions_mut(), the_token, 0);
     Ok(())
 }
 
